@@ -1088,7 +1088,7 @@ def _range_gates(ctx):
             names |= {mir.last_seg(mir.callee(t) or "") for _, t in ctx.body(c).calls()}
         if "max" not in names:
             continue
-        args_cmp = set()
+        args_cmp = {}
         for blk in body.blocks:
             for st in blk["stmts"]:
                 if st["k"] == "assign" and st["rv"]["k"] == "binop" and st["rv"]["op"] in ("Lt", "Le", "Gt", "Ge"):
@@ -1097,7 +1097,9 @@ def _range_gates(ctx):
                         if o["k"] in ("copy", "move"):
                             for (r, p) in body.trace(o["place"]):
                                 if r[0] == "arg" and not p:
-                                    args_cmp.add(r[1])
+                                    # which side of a bound the argument is tested to lie on
+                                    less = st["rv"]["op"] in ("Lt", "Le")
+                                    args_cmp.setdefault(r[1], set()).add("below" if less == (side == "l") else "above")
         if args_cmp:
             gates[f["id"]] = args_cmp
     return gates
@@ -1135,6 +1137,7 @@ def rule_t15(ctx):
             res.ok({"pattern": variant, "clause": "suffix", "verdict": "compared with the matched type on every accepting path"})
         for fld in fields:
             blocks = set()
+            sides = set()
             for b in region:
                 t = body.term(b)
                 if not t or t["k"] != "call" or (mir.callee(t) or "") not in gates:
@@ -1143,6 +1146,12 @@ def rule_t15(ctx):
                     a = t["args"][i - 1]
                     if a["k"] in ("copy", "move") and any(r == SELF1 and tuple(p[-2:]) == ("as " + variant, fld) for (r, p) in body.deep_sources(a, depth=2)):
                         blocks.add(b)
+                        sides |= gates[mir.callee(t)][i]
+            if blocks and sides != {"below", "above"}:
+                res.bad(Finding("T15", f["id"], "%s pattern: number %s is only compared with one bound of the matched type" % (variant, fld),
+                                "the number is only tested to lie %s a bound: the bounds of an inverted range (`256..=0` for a u8, `-128i8..-128i8` stored as -128..=-129) pass, are cut down to the "
+                                "bits of the type by the lowering, and the arm matches values its pattern does not contain" % ("/".join(sorted(sides)) or "?"), f["sp"]))
+                continue
             wit = body.must_pass(blocks, exits=exits, succ=succ) if blocks else [0]
             if wit:
                 res.bad(Finding("T15", f["id"], "%s pattern: number %s is not compared with the bounds of the matched type" % (variant, fld),
